@@ -324,26 +324,47 @@ def to_case_stream(ob):
     need not be a reachable state, the replay decides on the real code."""
     from pyvc.solve import model_int
     mode = _mode_of(ob)
-    L, s = model_int(ob.model, "L"), model_int(ob.model, "s")
-    if mode is None or L is None or s is None or not (1 <= s <= L <= 24):
+    if mode is None:
         return None
+    L, s = model_int(ob.model, "L"), model_int(ob.model, "s")
+    have_model = not (L is None or s is None or not (1 <= s <= L <= 24))
+    # no usable model (an undecided obligation): small geometries, incl. shift 1, shift == length and an odd length
+    default_pairs = [(4, 2), (5, 3), (6, 1), (4, 4), (7, 2)]
+    pairs = ([(L, s)] + ([p_ for p_ in default_pairs if p_ != (L, s)] if getattr(ob, "verdict", None) != "refuted" else [])) if have_model else default_pairs
     T = model_int(ob.model, "T", 0) or 0
     n = model_int(ob.model, "n", None)
     N0 = model_int(ob.model, "N", None)
-    base = {"computer": "stft", "frame_style": "causal" if mode == "causal" else "centered", "kaldi_shift": mode == "kaldi",
-            "frame_length": L, "frame_shift": s, "sampling_rate": 1000, "bank": "fbank1", "seed": 0}
     cases = []
-    if n is not None and T >= 0 and n >= 0 and T + n <= 200:
-        cases.append(dict(base, N=T + n, chunks=[T, n]))
-    if N0 is not None and 0 <= N0 <= 200:
-        cases.append(dict(base, N=N0, chunks=[N0]))
-    for N in range(0, 3 * L + 3):
-        cases.append(dict(base, N=N, chunks=[N]))
-        if N:
-            cases.append(dict(base, N=N, chunks=[1] * N))
-        for c in range(1, N):
-            cases.append(dict(base, N=N, chunks=[c, N - c]))
-    return cases[:4000]
+    for L, s in pairs:
+        base = {"computer": "stft", "frame_style": "causal" if mode == "causal" else "centered", "kaldi_shift": mode == "kaldi",
+                "frame_length": L, "frame_shift": s, "sampling_rate": 1000, "bank": "fbank1", "seed": 0}
+        if have_model and n is not None and T >= 0 and n >= 0 and T + n <= 200:
+            cases.append(dict(base, N=T + n, chunks=[T, n]))
+        if have_model and N0 is not None and 0 <= N0 <= 200:
+            cases.append(dict(base, N=N0, chunks=[N0]))
+        for N in range(0, 3 * L + 3):
+            cases.append(dict(base, N=N, chunks=[N]))
+            if N:
+                cases.append(dict(base, N=N, chunks=[1] * N))
+            for c in range(1, N):
+                cases.append(dict(base, N=N, chunks=[c, N - c]))
+        # three-part splits: what the buffer remembers of an EARLIER chunk matters only from the third call on
+        for N in range(3, 2 * L + 3):
+            for c1 in range(1, N - 1):
+                for c2 in range(1, min(3, N - c1)):
+                    cases.append(dict(base, N=N, chunks=[c1, c2, N - c1 - c2]))
+    if not have_model or getattr(ob, "verdict", None) != "refuted":
+        # (also behind a CANDIDATE model, which need not be a reachable state:) every small geometry (a large shift relative to the length leaves a short remainder whose reflection reaches into history)
+        for L in range(1, 9):
+            for s in range(1, L + 1):
+                if (L, s) in pairs:
+                    continue
+                base = {"computer": "stft", "frame_style": "causal" if mode == "causal" else "centered", "kaldi_shift": mode == "kaldi",
+                        "frame_length": L, "frame_shift": s, "sampling_rate": 1000, "bank": "fbank1", "seed": 0}
+                for N in range(L, 2 * L + 3):
+                    for c in range(1, N):
+                        cases.append(dict(base, N=N, chunks=[c, N - c]))
+    return cases[:9000]
 
 
 to_case_full = to_case_finalize = to_case_chunk = to_case_stream
